@@ -14,6 +14,9 @@ import (
 	"fmt"
 	"sort"
 	"strings"
+
+	pb "github.com/libp2p/go-libp2p-pubsub/pb"
+	"github.com/libp2p/go-libp2p/core/peer"
 )
 
 type vfC04Inst struct {
@@ -22,7 +25,8 @@ type vfC04Inst struct {
 	pushed   map[string][]string // message -> forwarders whose copy reached the node, in order
 	decided  map[string]bool
 	invalid0 map[string]float64
-	released map[string]map[string]bool // message -> validators released
+	released map[string]map[string]bool    // message -> validators released
+	refused  map[string]map[string]float64 // message -> forwarder -> copies refused by a full validation queue (from the trace)
 	firedTO  bool
 }
 
@@ -133,6 +137,21 @@ func (in *vfC04Inst) Apply(ev string, judge bool) string {
 	pre := in.last
 	obs := in.vfGWInst.Apply(ev, judge)
 	post := in.last
+	if g.trace != nil {
+		for _, e := range g.trace.take() {
+			if e.GetType() == pb.TraceEvent_REJECT_MESSAGE && e.GetRejectMessage().GetReason() == RejectValidationQueueFull {
+				rm := e.GetRejectMessage()
+				for _, l := range vfSortedKeys(g.msgs) {
+					if g.msgID(l) == string(rm.GetMessageID()) {
+						if in.refused[l] == nil {
+							in.refused[l] = map[string]float64{}
+						}
+						in.refused[l][vfName(peer.ID(rm.GetReceivedFrom()))]++
+					}
+				}
+			}
+		}
+	}
 	f := strings.Split(ev, ":")
 	switch f[0] {
 	case "pub":
@@ -232,12 +251,13 @@ func (in *vfC04Inst) Apply(ev string, judge bool) string {
 			}
 			if want == "R" {
 				for p, n := range copies {
-					// with a bounded validation queue a duplicate copy may have been refused at the door (throttled:
-					// no penalty for that copy), so only a sole forwarder is certain to have been judged
-					if g.cfg.ValQueue == 0 || len(copies) == 1 {
+					// a copy refused at the door by a full validation queue was throttled: no penalty for that copy
+					// (the refusals are read from the trace); every forwarder with a copy that got in is penalised
+					judged := n - in.refused[label][p]
+					if judged >= 1 {
 						lo[p]++
 					}
-					hi[p] += n
+					hi[p] += judged
 				}
 			}
 		}
@@ -372,12 +392,14 @@ func vfC04ThrottleScenarios(thorough bool) []*vfGWScenario {
 	}
 	// a full validation queue: one worker parked in an inline validator, a queue of one
 	for _, vd := range []string{"A", "R"} {
-		q3 := map[string]vfMsgSpec{"m1": {Topic: "t", Author: "x", Seq: 1, Size: 8}, "m2": {Topic: "t", Author: "x", Seq: 2, Size: 8}, "m3": {Topic: "t", Author: "x", Seq: 3, Size: 8}}
-		vals := []vfValCfg{{Name: "V1", Topic: "t", Inline: true, Gated: true, Verdict: vd}}
-		out = append(out, &vfGWScenario{Name: "throttle-queue-full[" + vd + "]",
-			Cfg: vfGWCfg{Router: "gossip", Peers: peers, Topics: []string{"t"}, Params: "d2", Scoring: true, ScoreTopics: true, SeenTTL: 3600, Validators: vals, Workers: 1, ValQueue: 1,
-				Prefix: []string{"conn:a", "conn:b", "conn:c", "sub:a:t", "sub:b:t", "sub:c:t", "join:t"}},
-			Alphabet: []string{"pub:a:m1", "pub:a:m2", "pub:b:m3", "pub:b:m1", "vrel:V1:m1:" + vd, "vrel:V1:m2:" + vd, "vrel:V1:m3:" + vd}, Msgs: q3, Depth: 6})
+		for _, qsize := range []int{1, 2} {
+			q3 := map[string]vfMsgSpec{"m1": {Topic: "t", Author: "x", Seq: 1, Size: 8}, "m2": {Topic: "t", Author: "x", Seq: 2, Size: 8}, "m3": {Topic: "t", Author: "x", Seq: 3, Size: 8}}
+			vals := []vfValCfg{{Name: "V1", Topic: "t", Inline: true, Gated: true, Verdict: vd}}
+			out = append(out, &vfGWScenario{Name: fmt.Sprintf("throttle-queue-%d[%s]", qsize, vd),
+				Cfg: vfGWCfg{Router: "gossip", Peers: peers, Topics: []string{"t"}, Params: "d2", Scoring: true, ScoreTopics: true, SeenTTL: 3600, Validators: vals, Workers: 1, ValQueue: qsize, Tracer: true,
+					Prefix: []string{"conn:a", "conn:b", "conn:c", "sub:a:t", "sub:b:t", "sub:c:t", "join:t"}},
+				Alphabet: []string{"pub:a:m1", "pub:a:m2", "pub:b:m3", "pub:b:m1", "pub:c:m1", "vrel:V1:m1:" + vd, "vrel:V1:m2:" + vd, "vrel:V1:m3:" + vd}, Msgs: q3, Depth: 6})
+		}
 	}
 	for _, sh := range shapes {
 		alphabet := []string{"pub:a:m1", "pub:b:m2", "pub:b:m1", "lpub:t:p1"}
@@ -398,7 +420,7 @@ func vfC04ThrottleScenarios(thorough bool) []*vfGWScenario {
 
 func vfC04Mk(x *vfExec, sc *vfGWScenario) vfInstance {
 	base := newVfGWInst(x, sc, nil)
-	in := &vfC04Inst{vfGWInst: base, vals: sc.Cfg.Validators, pushed: map[string][]string{}, decided: map[string]bool{}, invalid0: map[string]float64{}, released: map[string]map[string]bool{}}
+	in := &vfC04Inst{vfGWInst: base, vals: sc.Cfg.Validators, pushed: map[string][]string{}, decided: map[string]bool{}, invalid0: map[string]float64{}, released: map[string]map[string]bool{}, refused: map[string]map[string]float64{}}
 	for k, v := range base.last.Invalid {
 		in.invalid0[k] = v
 	}
